@@ -173,6 +173,14 @@ class instruction_mips32(cpu.instruction):
             raise ValueError('symbol not resolved %s' % self.l)
         if not isinstance(e, ExprInt):
             return
+        if self.name in ["J", "JAL"]:
+            # Region jump: the instruction holds the low 28 bits of the
+            # destination (see dstflow2label)
+            region_mask = 0xFFFFFFFF ^ ((1 << 28) - 1)
+            if (int(e) & region_mask) != (self.offset & region_mask):
+                raise ValueError('destination out of region %r' % e)
+            self.args[ndx] = ExprInt(int(e) & ((1 << 28) - 1), 32)
+            return
         off = (int(e) - self.offset) & int(e.mask)
         if int(off % 4):
             raise ValueError('strange offset! %r' % off)
